@@ -69,7 +69,7 @@ def _same_lon(env, got, want):
     return near(env, got, want, rel=0.0, abs_=1e-9, ctol=0.0, catol=1e-9)
 
 
-@harness(P, quick=grid(ns=[2], dconv=[360, 180], qconv=[360, 180]), thorough=grid(ns=[3], dconv=[360, 180], qconv=[360, 180]), max_paths=4000, time_budget=600, hard_timeout=1200, time_budget_thorough=2400, hard_timeout_thorough=2700)
+@harness(P, quick=grid(ns=[2], dconv=[360, 180], qconv=[360, 180]), thorough=grid(ns=[3], dconv=[360, 180], qconv=[360, 180]), max_paths=4000, time_budget=300, hard_timeout=700, time_budget_thorough=2400, hard_timeout_thorough=2700)
 def nearest(env, ns, dconv, qconv):
     """nearest: the station at minimum circular distance, AssertionError iff that distance exceeds the tolerance;
     longitudes reported in the query's convention."""
@@ -113,8 +113,8 @@ def _lon_ok(env, got, src, qconv):
     return AND(integral, rng)
 
 
-@harness(P, quick=grid(ns=[2], dconv=[360, 180], qconv=[360, 180], max_sites=[4]) + grid(ns=[2], dconv=[360], qconv=[360], max_sites=[1]),
-         thorough=grid(ns=[3], dconv=[360, 180], qconv=[360, 180], max_sites=[2, 4]), max_paths=4000, time_budget=600, hard_timeout=1200, time_budget_thorough=2400, hard_timeout_thorough=2700)
+@harness(P, quick=[dict(ns=2, dconv=360, qconv=180, max_sites=4), dict(ns=2, dconv=180, qconv=360, max_sites=4), dict(ns=2, dconv=360, qconv=360, max_sites=1)],
+         thorough=grid(ns=[2], dconv=[360, 180], qconv=[360, 180], max_sites=[4]) + grid(ns=[3], dconv=[360, 180], qconv=[360, 180], max_sites=[2, 4]), max_paths=4000, time_budget=300, hard_timeout=700, time_budget_thorough=2400, hard_timeout_thorough=2700)
 def idw(env, ns, dconv, qconv, max_sites):
     """idw: convex combination of up to max_sites stations within tolerance, weights ~ 1/distance; the station itself at
     zero distance; missing with fewer than two stations in range."""
